@@ -327,6 +327,86 @@ fn run_spy(cap: Option<usize>, queue: Option<usize>, ops: &[String]) -> String {
     obs.join(";")
 }
 
+/// a sink whose flush answers as scripted
+struct FlushScripted {
+    answer: Mutex<Option<usize>>,
+    flushes: std::sync::atomic::AtomicUsize,
+}
+struct SharedFs(Arc<FlushScripted>);
+impl MetricSink for SharedFs {
+    fn emit(&self, m: &str) -> io::Result<usize> {
+        Ok(m.len())
+    }
+    fn flush(&self) -> io::Result<()> {
+        self.0.flushes.fetch_add(1, std::sync::atomic::Ordering::SeqCst);
+        match self.0.answer.lock().unwrap().take() {
+            None => Ok(()),
+            Some(k) if k >= 200 => Err(io::Error::from_raw_os_error((k - 200) as i32)),
+            Some(k) => Err(tok_err(k, 1)),
+        }
+    }
+}
+
+/// `cfl <c|q|h> <a|e<k>>`: a flush through `StatsdClient::flush` (c), through a `QueuingMetricSink` built
+/// with `from` (q) or with an error handler (h): the wrapped sink is flushed exactly once and its answer —
+/// its error included — comes back unchanged; the handler is not involved.
+fn run_cfl(via: &str, ans: &str) -> String {
+    let fs = Arc::new(FlushScripted { answer: Mutex::new(None), flushes: std::sync::atomic::AtomicUsize::new(0) });
+    let handled = Arc::new(std::sync::atomic::AtomicUsize::new(0));
+    let want: Option<usize> = ans.strip_prefix('e').and_then(|k| k.parse().ok());
+    *fs.answer.lock().unwrap() = want;
+    let h2 = handled.clone();
+    let repr = |r: io::Result<()>| -> String {
+        match r {
+            Ok(()) => "ok".to_string(),
+            Err(e) => match (e.raw_os_error(), want) {
+                (Some(n), Some(k)) if k >= 200 && n as usize == k - 200 => format!("err{}", k),
+                (None, Some(k)) if k < 200 && e.get_ref().map(|i| i.to_string()) == Some("tok1".to_string()) && kind_index(e.kind()) == k % KINDS.len() => format!("err{}", k),
+                _ => format!("err{}!", kind_index(e.kind())),
+            },
+        }
+    };
+    let res = catch_unwind(AssertUnwindSafe(|| match via {
+        "c" => {
+            let client = StatsdClient::builder("p", SharedFs(fs.clone()))
+                .with_error_handler(move |_e| {
+                    h2.fetch_add(1, std::sync::atomic::Ordering::SeqCst);
+                })
+                .build();
+            match client.flush() {
+                Ok(()) => "ok".to_string(),
+                Err(e) => {
+                    use std::error::Error;
+                    match e.source().and_then(|s| s.downcast_ref::<io::Error>()) {
+                        Some(i) => repr(Err(io::Error::new(i.kind(), i.get_ref().map(|x| x.to_string()).unwrap_or_default())).map_err(|x| {
+                            // keep errno identity for OS errors
+                            match i.raw_os_error() {
+                                Some(n) => io::Error::from_raw_os_error(n),
+                                None => x,
+                            }
+                        })),
+                        None => "err?!".to_string(),
+                    }
+                }
+            }
+        }
+        "q" => {
+            let q = QueuingMetricSink::from(SharedFs(fs.clone()));
+            repr(q.flush())
+        }
+        _ => {
+            let q = QueuingMetricSink::builder()
+                .with_error_handler(move |_e| {
+                    h2.fetch_add(1, std::sync::atomic::Ordering::SeqCst);
+                })
+                .build(SharedFs(fs.clone()));
+            repr(q.flush())
+        }
+    }))
+    .unwrap_or_else(|_| "panic".to_string());
+    format!("{}/{}/{}", res, fs.flushes.load(std::sync::atomic::Ordering::SeqCst), handled.load(std::sync::atomic::Ordering::SeqCst))
+}
+
 fn run_line(line: &str) -> Option<String> {
     let line = line.split(" => ").next().unwrap().trim();
     if line.is_empty() || line.starts_with('#') {
@@ -352,6 +432,7 @@ fn run_line(line: &str) -> Option<String> {
             let obs = run_spy(cap, q, &ops(f[3]));
             Some(format!("{} => {}", line, obs))
         }
+        "cfl" if f.len() == 3 => Some(format!("{} => {}", line, run_cfl(f[1], f[2]))),
         _ => Some(format!("{} => malformed", line)),
     }
 }
@@ -373,7 +454,7 @@ fn body(idx: usize, len: usize) -> Vec<u8> {
     v
 }
 
-const ENDINGS: [&[u8]; 5] = [b"", b"\n", b"\r\n", b";\r\n", b";"];
+const ENDINGS: [&[u8]; 8] = [b"", b"\n", b"\r\n", b";\r\n", b";", b"\r\n\r\n\n", b"--END--\n", b"0123456789abcdefg"];
 
 fn emit_case(out: &mut impl Write, cap: usize, ending: &[u8], oracle: &[Outcome], lens: &[Option<usize>]) {
     let ops: Vec<String> = lens
@@ -570,7 +651,27 @@ fn large_caps(out: &mut impl Write, rng: &mut Rng, count: &mut u64) {
     }
 }
 
+/// capacities around and above the largest UDP payload, through `MultiLineWriter::new` (the buffered spy sink)
+fn spy_big(out: &mut impl Write, count: &mut u64) {
+    for cap in [65506usize, 65507, 65508, 70000, 131072] {
+        let third = cap / 3;
+        let ops: Vec<String> = vec![
+            format!("e{}", hex(&body(1, third - 1))),
+            format!("e{}", hex(&body(2, third - 1))),
+            format!("e{}", hex(&body(3, third - 2))),
+            "e6161".to_string(),
+            "f".to_string(),
+            format!("e{}", hex(&body(4, cap - 1))),
+            format!("e{}", hex(&body(5, cap))),
+        ];
+        let obs = run_spy(Some(cap), None, &ops);
+        writeln!(out, "spy {} u {} => {}", cap, ops.join(","), obs).unwrap();
+        *count += 1;
+    }
+}
+
 fn spy_cases(out: &mut impl Write, rng: &mut Rng, n: usize, count: &mut u64) {
+    spy_big(out, count);
     for i in 0..n {
         let cap: Option<usize> = match rng.below(6) {
             0 => None,
@@ -663,6 +764,14 @@ fn main() {
             large_caps(&mut out, &mut rng, &mut count);
         }
         spy_cases(&mut out, &mut rng, 20000, &mut count);
+    }
+    for via in ["c", "q", "h"] {
+        for ans in ["a", "e10", "e15", "e8", "e17", "e211", "e305", "e311"] {
+            if let Some(l) = run_line(&format!("cfl {} {}", via, ans)) {
+                writeln!(out, "{}", l).unwrap();
+                count += 1;
+            }
+        }
     }
     for h in idle {
         if let Ok(Some(l)) = h.join() {
